@@ -54,7 +54,7 @@ PROPS["C07"] = dict(
     level_note="Trusted: the generator's own expectation builder (vk/fieldgen.go), encoding/json's token decoder and the harness's RFC 8259/3629 scanner. Sampled, not exhaustive.",
     rule="events generated from every public field constructor with hostile keys/strings and boundary numbers, formatted by JSONLayout directly and through log.Record + Refresh-built console logger",
     steps=[
-        dict(test="^Test(Regress_C07|C07_Direct|C07_EndToEnd)$", quick=dict(checks=12000, timeout=900), thorough=dict(checks=40000, shards=12, timeout=3000)),
+        dict(test="^Test(Regress_C07\\w*|C07_Direct|C07_EndToEnd)$", quick=dict(checks=12000, timeout=900), thorough=dict(checks=40000, shards=12, timeout=3000)),
     ],
     fuzz=[dict(target="FuzzC07", seconds=120)],
 )
@@ -66,7 +66,7 @@ PROPS["C08"] = dict(
     level_note="Trusted: JSONLayout's tokens as reference (validated independently in C07), the harness's header/truncation reimplementation, the generator's knowledge of which fields are string-like.",
     rule="C07 event generator x widths -5..200, direct ToBytes and end-to-end through Refresh-configured console TextLayout",
     steps=[
-        dict(test="^Test(Regress_C08|C08_Direct|C08_EndToEnd)$", quick=dict(checks=8000, timeout=900), thorough=dict(checks=40000, shards=12, timeout=3000)),
+        dict(test="^Test(Regress_C08\\w*|C08_Direct|C08_EndToEnd)$", quick=dict(checks=8000, timeout=900), thorough=dict(checks=40000, shards=12, timeout=3000)),
     ],
     fuzz=[dict(target="FuzzC08", seconds=120)],
 )
